@@ -25,6 +25,8 @@ type Man struct {
 	AT      string            // artifactType expected in the referrers descriptor
 	Ann     map[string]string // annotations expected in the referrers descriptor
 	Index   bool
+	Bare    bool              // the body has no mediaType field: the type is known from the Content-Type of the push only
+	Listed  map[string]string // index only: child digest -> media type this index lists it under, where that differs from the child's own
 }
 
 // Universe is the small closed world of one history: few blobs, few manifests, few tags, so that
@@ -48,6 +50,8 @@ type UOpts struct {
 	NImages   int
 	NIndexes  int
 	NArtifact int
+	BareMT    bool // some OCI manifests and indexes omit the optional mediaType field of the body
+	MTSkew    bool // some index entries list a child under another (docker <-> OCI) media type than it was pushed with
 	Tags      []string
 	Tag       string // unique content marker
 }
@@ -71,7 +75,21 @@ func descJSON(mt, d string, size int) map[string]any {
 
 // MkImage builds an image manifest.
 func MkImage(name, alg, mt string, cfg *Blob, cfgMT string, layers []Descriptorish, subject, at string, ann map[string]string) *Man {
+	return MkImageX(name, alg, mt, cfg, cfgMT, layers, subject, at, ann, MkOpt{})
+}
+
+// MkOpt are the rarely used variations of MkImageX / MkIndexX.
+type MkOpt struct {
+	Bare   bool              // leave the mediaType field out of the body
+	ListAs map[string]string // index: child digest -> media type to list it under
+}
+
+// MkImageX is MkImage with variations.
+func MkImageX(name, alg, mt string, cfg *Blob, cfgMT string, layers []Descriptorish, subject, at string, ann map[string]string, o MkOpt) *Man {
 	m := map[string]any{"schemaVersion": 2, "mediaType": mt, "config": descJSON(cfgMT, cfg.D, len(cfg.B))}
+	if o.Bare {
+		delete(m, "mediaType")
+	}
 	ls := []any{}
 	refs := []string{cfg.D}
 	for _, l := range layers {
@@ -91,7 +109,7 @@ func MkImage(name, alg, mt string, cfg *Blob, cfgMT string, layers []Descriptori
 		m["annotations"] = ann
 	}
 	raw, _ := json.Marshal(m)
-	return &Man{Name: name, Raw: raw, MT: mt, D: DigestOf(alg, raw), Refs: refs, Subject: subject, AT: eff, Ann: ann}
+	return &Man{Name: name, Raw: raw, MT: mt, D: DigestOf(alg, raw), Refs: refs, Subject: subject, AT: eff, Ann: ann, Bare: o.Bare}
 }
 
 // Descriptorish is the minimum needed to reference content.
@@ -103,13 +121,30 @@ type Descriptorish struct {
 
 // MkIndex builds an index manifest.
 func MkIndex(name, alg, mt string, children []*Man, subject, at string, ann map[string]string) *Man {
+	return MkIndexX(name, alg, mt, children, subject, at, ann, MkOpt{})
+}
+
+// MkIndexX is MkIndex with variations.
+func MkIndexX(name, alg, mt string, children []*Man, subject, at string, ann map[string]string, o MkOpt) *Man {
 	ms := []any{}
 	refs := []string{}
+	var listed map[string]string
 	for _, c := range children {
-		ms = append(ms, descJSON(c.MT, c.D, len(c.Raw)))
+		cmt := c.MT
+		if as := o.ListAs[c.D]; as != "" && as != c.MT {
+			cmt = as
+			if listed == nil {
+				listed = map[string]string{}
+			}
+			listed[c.D] = as
+		}
+		ms = append(ms, descJSON(cmt, c.D, len(c.Raw)))
 		refs = append(refs, c.D)
 	}
 	m := map[string]any{"schemaVersion": 2, "mediaType": mt, "manifests": ms}
+	if o.Bare {
+		delete(m, "mediaType")
+	}
 	if subject != "" {
 		m["subject"] = descJSON(MTImage, subject, 7)
 	}
@@ -120,7 +155,7 @@ func MkIndex(name, alg, mt string, children []*Man, subject, at string, ann map[
 		m["annotations"] = ann
 	}
 	raw, _ := json.Marshal(m)
-	return &Man{Name: name, Raw: raw, MT: mt, D: DigestOf(alg, raw), Refs: refs, Subject: subject, AT: at, Ann: ann, Index: true}
+	return &Man{Name: name, Raw: raw, MT: mt, D: DigestOf(alg, raw), Refs: refs, Subject: subject, AT: at, Ann: ann, Index: true, Bare: o.Bare, Listed: listed}
 }
 
 // GenUniverse draws a random universe.
@@ -177,7 +212,8 @@ func GenUniverse(r *rand.Rand, o UOpts) *Universe {
 			o2 := images[r.Intn(len(images))]
 			ls = append(ls, Descriptorish{MTLayer, o2.D, len(o2.Raw)})
 		}
-		m := MkImage(fmt.Sprintf("i%d", i), pickAlg(r, o.Algs), mt, blob(), cmt, ls, "", "", map[string]string{"name": fmt.Sprintf("i%d", i), "u": o.Tag})
+		mo := MkOpt{Bare: o.BareMT && mt == MTImage && r.Intn(3) == 0}
+		m := MkImageX(fmt.Sprintf("i%d", i), pickAlg(r, o.Algs), mt, blob(), cmt, ls, "", "", map[string]string{"name": fmt.Sprintf("i%d", i), "u": o.Tag}, mo)
 		images = append(images, m)
 		all = append(all, m)
 	}
@@ -201,7 +237,20 @@ func GenUniverse(r *rand.Rand, o UOpts) *Universe {
 		if r.Intn(8) == 0 && i != 1 {
 			ch = nil // the empty index
 		}
-		m := MkIndex(fmt.Sprintf("x%d", i), pickAlg(r, o.Algs), mt, ch, "", "", map[string]string{"name": fmt.Sprintf("x%d", i), "u": o.Tag})
+		mo := MkOpt{Bare: o.BareMT && mt == MTIndex && r.Intn(4) == 0}
+		if o.MTSkew {
+			// a tool that rewrites an index may list its children under the sibling media type
+			swap := map[string]string{MTImage: MTDockerImage, MTDockerImage: MTImage, MTIndex: MTDockerList, MTDockerList: MTIndex}
+			for _, c := range ch {
+				if r.Intn(3) == 0 {
+					if mo.ListAs == nil {
+						mo.ListAs = map[string]string{}
+					}
+					mo.ListAs[c.D] = swap[c.MT]
+				}
+			}
+		}
+		m := MkIndexX(fmt.Sprintf("x%d", i), pickAlg(r, o.Algs), mt, ch, "", "", map[string]string{"name": fmt.Sprintf("x%d", i), "u": o.Tag}, mo)
 		indexes = append(indexes, m)
 		all = append(all, m)
 	}
